@@ -459,7 +459,18 @@ Definition extract_item (X : xcfg) (i : ditem) : rep :=
 Definition drop_item (_ : ditem) : rep := Delete.
 
 (* ---------- rules, processing items, pipelines ---------- *)
-Record rule := mkR { r_dets : list (str * det); r_cond : str; r_fields : list str }.
+(* rule-level attributes transformations set and later processing items read: log source
+   (category, product, service), custom attributes, pipeline state (reset for every rule by
+   ProcessingPipeline.apply), identifiers of the processing items applied to the rule; values are printed *)
+Record rattrs := mkA {
+  a_logsource : option str * (option str * option str);
+  a_custom : list (str * str);
+  a_state : list (str * str);
+  a_applied : list str
+}.
+Definition attrs0 : rattrs := mkA (None, (None, None)) [] [] [].
+Record rule := mkRule { r_dets : list (str * det); r_cond : str; r_fields : list str; r_attrs : rattrs }.
+Definition mkR (ds : list (str * det)) (c : str) (fs : list str) : rule := mkRule ds c fs attrs0.
 
 Inductive fcond := FInc (l : list str) | FExc (l : list str).
 Definition fc_match (c : fcond) (f : option str) : bool :=
@@ -479,9 +490,17 @@ Definition ic_match (c : icond) (i : ditem) : bool :=
   | IWild call => quant call (fun v => match v with V (AStr _ s) => contains_special s | _ => false end) (i_vals i)
   | IApplied id => mem_str id (i_applied i)
   end.
+(* rule conditions (conditions/rule.py, state.py): logsource (unspecified attributes are ignored),
+   processing_item_applied, processing_state eq, rule_attribute eq / ne on a custom string attribute *)
+Inductive rcond :=
+| RLogsource (c p s : option str)
+| RApplied (id : str)
+| RState (k v : str)
+| RAttr (ne : bool) (k v : str).
 Record conds := mkC {
   c_id : option str;           (* identifier of the processing item *)
-  c_rule : bool;               (* match_rule_conditions (evaluated by the harness: log source, items applied before) *)
+  c_rule : bool;               (* match_rule_conditions; rules_consistent checks it against c_rconds on the model's rule *)
+  c_rconds : list rcond; c_rneg : bool;     (* rule_conditions, linking all, rule_cond_not *)
   c_fconds : list fcond; c_fneg : bool;     (* field_name_conditions, linking all, field_name_cond_not *)
   c_iconds : list icond; c_ineg : bool      (* detection_item_conditions, linking all, detection_item_cond_not *)
 }.
@@ -514,13 +533,17 @@ Inductive tspec :=
 | TQueryPh (k : phsel) (expr : str) (mapping : list (str * str))
 | THashes (H : hcfg)
 | TExtract (X : xcfg)
+| TChangeLogsource (c p s : option str)   (* rule.py: a fresh SigmaLogSource(category, product, service) *)
+| TSetCustom (k v : str)
+| TSetState (k v : str)
+| TAddField (l : list str) | TRemoveField (l : list str) | TSetField (l : list str)
 | TNoop.                                         (* set_state, change_logsource, add_field ...: no effect on detections *)
 
 Definition tbl_sub (tbl : list (str * str)) (s : str) : str :=
   match find (fun p => str_eqb (fst p) s) tbl with Some p => snd p | None => s end.
 
 Definition map_dets (f : det -> det) (r : rule) : rule :=
-  mkR (map (fun p => (fst p, f (snd p))) (r_dets r)) (r_cond r) (r_fields r).
+  mkRule (map (fun p => (fst p, f (snd p))) (r_dets r)) (r_cond r) (r_fields r) (r_attrs r).
 
 (* AddConditionTransformation.apply_condition *)
 Definition s_not : str := [110; 111; 116; 32].                 (* "not " *)
@@ -534,9 +557,13 @@ Fixpoint dict_set {A} (k : str) (v : A) (l : list (str * A)) : list (str * A) :=
   | (k', v') :: r => if str_eqb k k' then (k, v) :: r else (k', v') :: dict_set k v r
   end.
 
+(* list.remove(x): the first occurrence; a missing field is ignored (fields.py RemoveFieldTransformation) *)
+Fixpoint remove_first (f : str) (l : list str) : list str :=
+  match l with [] => [] | x :: r => if str_eqb x f then r else x :: remove_first f r end.
+
 Definition apply_fieldmap (c : conds) (afn : option str -> fres) (r : rule) : rule :=
   let r' := map_dets (walk_top (marked (c_id c) (gated (im_of c) (fieldmap_item (fm_of c) afn)))) r in
-  mkR (r_dets r') (r_cond r') (fieldmap_fields (fm_of c) afn (r_fields r)).
+  mkRule (r_dets r') (r_cond r') (fieldmap_fields (fm_of c) afn (r_fields r)) (r_attrs r).
 Definition apply_values (c : conds) (tv : option str -> value -> option (list value)) (r : rule) : rule :=
   map_dets (walk_top (marked (c_id c) (gated (im_of c) (value_item tv)))) r.
 
@@ -547,7 +574,7 @@ Definition apply_tspec (c : conds) (t : tspec) (r : rule) : rule :=
   | TPrefix p => apply_fieldmap c (afn_prefix p) r
   | TSuffix s => apply_fieldmap c (afn_suffix s) r
   | TDrop => map_dets (walk_top (gated (im_of c) drop_item)) r
-  | TAddCond name d neg => mkR (dict_set name (mark_det (c_id c) d) (r_dets r)) (add_cond_text name neg (r_cond r)) (r_fields r)
+  | TAddCond name d neg => mkRule (dict_set name (mark_det (c_id c) d) (r_dets r)) (add_cond_text name neg (r_cond r)) (r_fields r) (r_attrs r)
   | TSetValue a => apply_values c (tv_set a) r
   | TCase m => apply_values c (tv_case m) r
   | TMapString m => apply_values c (tv_mapstring m) r
@@ -560,17 +587,75 @@ Definition apply_tspec (c : conds) (t : tspec) (r : rule) : rule :=
   | TQueryPh k e m => apply_values c (tv_queryph k e m) r
   | THashes H => map_dets (walk_top (marked (c_id c) (gated (im_of c) (hashes_item H)))) r
   | TExtract X => map_dets (walk_top (marked (c_id c) (gated (im_of c) (extract_item X)))) r
+  | TChangeLogsource c0 p s =>
+      mkRule (r_dets r) (r_cond r) (r_fields r)
+             (mkA (c0, (p, s)) (a_custom (r_attrs r)) (a_state (r_attrs r)) (a_applied (r_attrs r)))
+  | TSetCustom k v =>
+      mkRule (r_dets r) (r_cond r) (r_fields r)
+             (mkA (a_logsource (r_attrs r)) (dict_set k v (a_custom (r_attrs r))) (a_state (r_attrs r)) (a_applied (r_attrs r)))
+  | TSetState k v =>
+      mkRule (r_dets r) (r_cond r) (r_fields r)
+             (mkA (a_logsource (r_attrs r)) (a_custom (r_attrs r)) (dict_set k v (a_state (r_attrs r))) (a_applied (r_attrs r)))
+  | TAddField l => mkRule (r_dets r) (r_cond r) (r_fields r ++ l) (r_attrs r)
+  | TRemoveField l => mkRule (r_dets r) (r_cond r) (fold_left (fun fs f => remove_first f fs) l (r_fields r)) (r_attrs r)
+  | TSetField l => mkRule (r_dets r) (r_cond r) l (r_attrs r)
   | TNoop => r
   end.
 
+(* PreprocessingTransformation.apply: every applied transformation marks the rule with its identifier *)
+Definition mark_rule (id : option str) (r : rule) : rule :=
+  match id with
+  | Some x => mkRule (r_dets r) (r_cond r) (r_fields r)
+                     (mkA (a_logsource (r_attrs r)) (a_custom (r_attrs r)) (a_state (r_attrs r)) (add_id x (a_applied (r_attrs r))))
+  | None => r
+  end.
 (* ProcessingItem.apply: rule conditions gate the transformation *)
 Definition apply_item (it : conds * tspec) (r : rule) : rule :=
-  if c_rule (fst it) then apply_tspec (fst it) (snd it) r else r.
+  if c_rule (fst it) then mark_rule (c_id (fst it)) (apply_tspec (fst it) (snd it) r) else r.
 (* ProcessingPipeline.apply; NestedProcessingTransformation = the nested items in sequence *)
 Inductive pitem := PItem (c : conds) (t : tspec) | PNest (c : conds) (items : list (conds * tspec)).
 Definition apply_pitem (p : pitem) (r : rule) : rule :=
   match p with
   | PItem c t => apply_item (c, t) r
-  | PNest c items => if c_rule c then fold_left (fun r it => apply_item it r) items r else r
+  | PNest c items => if c_rule c then fold_left (fun r it => apply_item it r) items (mark_rule (c_id c) r) else r
   end.
 Definition apply_pipeline (p : list pitem) (r : rule) : rule := fold_left (fun r it => apply_pitem it r) p r.
+
+(* ProcessingItemBase.match_rule_conditions on the model's rule *)
+Definition opt_sub (c : option str) (x : option str) : bool :=
+  match c with None => true | Some _ => opt_str_eqb c x end.
+Definition lookup_str (k : str) (l : list (str * str)) : option str :=
+  match find (fun p => str_eqb (fst p) k) l with Some p => Some (snd p) | None => None end.
+Definition rc_match (r : rule) (c : rcond) : bool :=
+  match c with
+  | RLogsource c0 p s =>
+      let l := a_logsource (r_attrs r) in
+      opt_sub c0 (fst l) && opt_sub p (fst (snd l)) && opt_sub s (snd (snd l))
+  | RApplied id => mem_str id (a_applied (r_attrs r))
+  | RState k v => opt_str_eqb (lookup_str k (a_state (r_attrs r))) (Some v)
+  | RAttr ne k v => match lookup_str k (a_custom (r_attrs r)) with
+                    | Some x => xorb ne (str_eqb x v)
+                    | None => false
+                    end
+  end.
+Definition rule_match (c : conds) (r : rule) : bool :=
+  match c_rconds c with
+  | [] => true
+  | l => xorb (c_rneg c) (forallb (rc_match r) l)
+  end.
+(* the c_rule flags of a pipeline are what match_rule_conditions gives on the rule at that point *)
+Fixpoint items_consistent (its : list (conds * tspec)) (r : rule) : bool :=
+  match its with
+  | [] => true
+  | it :: rest => Bool.eqb (c_rule (fst it)) (rule_match (fst it) r) && items_consistent rest (apply_item it r)
+  end.
+Fixpoint rules_consistent (ps : list pitem) (r : rule) : bool :=
+  match ps with
+  | [] => true
+  | p :: rest =>
+      match p with
+      | PItem c t => Bool.eqb (c_rule c) (rule_match c r)
+      | PNest c items => Bool.eqb (c_rule c) (rule_match c r) &&
+                         (negb (c_rule c) || items_consistent items (mark_rule (c_id c) r))
+      end && rules_consistent rest (apply_pitem p r)
+  end.
